@@ -81,6 +81,7 @@ const (
 // Script tells the scripted handler what to do for one request.
 type Script struct {
 	Parse    bool            `json:"parse"`    // call Parse() and record the projected result
+	Shared   bool            `json:"shared"`   // answer with ONE value per response type, built once and handed (by struct copy, so with shared backing arrays and maps) to every request: what a handler serving from an in-memory store does
 	Forward  string          `json:"forward"`  // the handler dispatches GET <Forward> through the same API value before it answers (an internal forward: the request context already carries what the first dispatch put there)
 	Reparse  bool            `json:"reparse"`  // call Parse() a second time on the same request (operations without a body): the step is stateless in the model, so the second outcome is judged like the first
 	Resp     string          `json:"resp"`     // name of the response type to return ("" = first implementer)
@@ -475,6 +476,19 @@ func buildResponse(reg Registry, rec *Recorder, op OpInfo, cc *caseCtx) reflect.
 		code = 299
 	}
 	switch {
+	case cc.script.Shared:
+		key := t // (the response type itself: packages of one run have types of the same name)
+		sv, ok := sharedResp.Load(key)
+		if !ok {
+			nv := reflect.New(t).Elem()
+			RandomFill(nv, newRng(4242), 0)
+			if h := nv.FieldByName("Headers"); h.IsValid() {
+				fixDomain(h, "headers", newRng(4243))
+			}
+			shapeShared(nv)
+			sv, _ = sharedResp.LoadOrStore(key, nv)
+		}
+		v.Set(sv.(reflect.Value))
 	case len(cc.script.Fill) > 0 && string(cc.script.Fill) != "null":
 		var av AVal
 		if err := json.Unmarshal(cc.script.Fill, &av); err != nil {
@@ -490,7 +504,7 @@ func buildResponse(reg Registry, rec *Recorder, op OpInfo, cc *caseCtx) reflect.
 			fixDomain(h, "headers", r) // header values must survive the wire: visible ASCII, arrays non-empty
 		}
 	}
-	if cc.script.Unique > 0 {
+	if cc.script.Unique > 0 && !cc.script.Shared {
 		cnt := 0
 		uniqueFill(v, cc.script.Unique+50_000_000, "", &cnt)
 	}
@@ -523,6 +537,34 @@ func buildResponse(reg Registry, rec *Recorder, op OpInfo, cc *caseCtx) reflect.
 	out := reflect.New(op.RespType).Elem()
 	out.Set(v)
 	return out
+}
+
+var sharedResp sync.Map // response type -> reflect.Value
+
+// shapeShared gives every slice of slices three rows: nil, two zero elements, nil (rows a store may well hold).
+func shapeShared(v reflect.Value) {
+	switch v.Kind() {
+	case reflect.Struct:
+		for i := 0; i < v.NumField(); i++ {
+			if v.Field(i).CanSet() {
+				shapeShared(v.Field(i))
+			}
+		}
+	case reflect.Ptr:
+		if !v.IsNil() {
+			shapeShared(v.Elem())
+		}
+	case reflect.Slice:
+		if v.Type().Elem().Kind() == reflect.Slice {
+			rows := reflect.MakeSlice(v.Type(), 3, 3)
+			rows.Index(1).Set(reflect.MakeSlice(v.Type().Elem(), 2, 2))
+			v.Set(rows)
+			return
+		}
+		for i := 0; i < v.Len(); i++ {
+			shapeShared(v.Index(i))
+		}
+	}
 }
 
 func b64(bs []byte) string { return base64.StdEncoding.EncodeToString(bs) }
